@@ -1,12 +1,28 @@
 import H4.SkpHuffIO
+import H4.Gen.Fn.Cskphuff
 import H4.Driver.Util
 namespace H4.Driver
 open H4.SkpHuff
 
+/- function-level Tie A cross-run: `HCIcskphuff_splay` as TRANSLATED from cskphuff.c (`H4.Gen.Fn.Cskphuff`) is executed on the
+    arrays of the `splay` T line; a result different from the model's (or ub / out of fuel) is appended as ` GEN=…` and so shows
+    up as a DIFF against the real C -/
+namespace GenSkp
+open H4.Gen.Fn.Cskphuff
+def il (l : List Nat) : List Int := l.map Int.ofNat
+def tag (model : String) (ub oof : Bool) (gen : String) : String :=
+  if ub then s!"{model} GEN=ub" else if oof then s!"{model} GEN=oof" else if gen == model then model else s!"{model} GEN={gen}"
+def splay (l r u : List Nat) (plain : Nat) (model : String) : String :=
+  let s := HCIcskphuff_splay H4.Gen.Cskphuff.TWICEMAX 0 (il l) (il r) (il u) plain
+  tag model s.ub s.oof s!"{showIntList s.skphuff_info_left} {showIntList s.skphuff_info_right} {showIntList s.skphuff_info_up}"
+end GenSkp
+
 /-- engine `skphuff`:
     `enc <skip> <hex data>` => raw DFTAG_COMPRESSED bytes
     `dec <skip> <n> <hex raw>` => the `n` decoded bytes (through the bit-id state machine) | fail
-    `decb <skip> <n> <hex raw>` => same on the plain bit list (the function the round-trip theorem is about) -/
+    `decb <skip> <n> <hex raw>` => same on the plain bit list (the function the round-trip theorem is about)
+    `splay <left> <right> <up> <plain>` => `<left'> <right'> <up'>`: one `HCIcskphuff_splay` on one tree (decimal arrays:
+       `left[SUCCMAX]`, `right[SUCCMAX]`, `up[TWICEMAX]`), model `splay` + the translated C function (`GenSkp`) -/
 def stepSkpHuff (args : List String) : String :=
   match args with
   | ["enc", k, d] => match k.toNat?, parseHex d with
@@ -22,6 +38,11 @@ def stepSkpHuff (args : List String) : String :=
       | some o => toHex o
       | none => "fail"
     | _, _, _ => "bad-op"
+  | ["splay", l, r, u, p] => match natList l, natList r, natList u, p.toNat? with
+    | some l, some r, some u, some p =>
+      let t := splay { left := l.toArray, right := r.toArray, up := u.toArray } p
+      GenSkp.splay l r u p s!"{showNatList t.left.toList} {showNatList t.right.toList} {showNatList t.up.toList}"
+    | _, _, _, _ => "bad-op"
   | _ => "bad-op"
 
 end H4.Driver
